@@ -125,7 +125,13 @@ func (w *World) fire(t *vtimer) {
 	case t.fn != nil:
 		// the thread was created (parked, not startable) by the arming thread, so that in race builds it inherits the
 		// arming thread's clock (timer start happens-before the callback) and not the clock of whoever runs the scheduler
-		t.th.notStarted = false
+		if t.th != nil && t.th.notStarted {
+			t.th.notStarted = false
+			t.th = nil
+		} else { // re-armed after it already ran once
+			th := w.newThread("afterfunc", t.fn)
+			th.label = "start"
+		}
 	case t.sleeper != nil:
 		// the sleeper's enabledness is now >= sleepTill; nothing else to do
 	}
